@@ -172,7 +172,7 @@ impl WorkerPool {
         let mut batch = Vec::with_capacity(config.batch_size);
 
         loop {
-            if shutdown_flag.load(Ordering::Relaxed) {
+            if shutdown_flag.load(Ordering::Acquire) && rx.is_empty() {
                 debug!("HTTP worker {} received shutdown signal", worker_id);
                 break;
             }
@@ -213,7 +213,7 @@ impl WorkerPool {
                     }
                 }
                 Err(RecvTimeoutError::Timeout) => {
-                    if shutdown_flag.load(Ordering::Relaxed) {
+                    if shutdown_flag.load(Ordering::Acquire) && rx.is_empty() {
                         debug!("HTTP worker {} received shutdown signal", worker_id);
                         break;
                     }
@@ -310,7 +310,7 @@ impl WorkerPool {
     /// Initiates graceful shutdown of the worker pool.
     pub fn shutdown(&self) {
         // Set shutdown flag to stop workers on next timeout
-        self.shutdown_flag.store(true, Ordering::Relaxed);
+        self.shutdown_flag.store(true, Ordering::Release);
 
         // Drop result sender to signal workers
         if let Ok(mut sender) = self.result_sender.lock() {
